@@ -1114,7 +1114,7 @@ def _is_enclosed_or_line(
 
         if isinstance(ast, (List, Dict, Set, ListComp, SetComp, DictComp, GeneratorExp,
                             FormattedValue, Interpolation, Name,
-                            MatchValue, MatchSingleton, MatchMapping,
+                            MatchSingleton, MatchMapping,  # MatchValue is not here because its value can span lines like '-\n 1', 'a.\n b' or '"a"\n "b"'
                             boolop, operator, unaryop,  # cmpop is not here because of #*^% like 'is \n not'
                             Slice, keyword, type_param,  # these can be unenclosed by themselves but are never used without being enclosed by a parent
                             expr_context, type_ignore)):
